@@ -87,13 +87,13 @@ func (v *Violation) String() string {
 type Result struct {
 	Seed        uint64         `json:"seed"`
 	Violations  []*Violation   `json:"violations,omitempty"`
-	Fingerprint string         `json:"fp"`          // abstract outcome fingerprint
-	Nontrivial  bool           `json:"nontrivial"`  // ≥1 fault fired or ≥1 property-specific probe hit
+	Fingerprint string         `json:"fp"`         // abstract outcome fingerprint
+	Nontrivial  bool           `json:"nontrivial"` // ≥1 fault fired or ≥1 property-specific probe hit
 	Faults      map[string]int `json:"faults,omitempty"`
 	Probes      map[string]int `json:"probes,omitempty"`
 	Steps       int            `json:"steps"`
 	SimTimeS    float64        `json:"sim_s"`
-	LogHash     string         `json:"log"` // hash of the event log (determinism)
+	LogHash     string         `json:"log"`              // hash of the event log (determinism)
 	States      []string       `json:"states,omitempty"` // distinct state digests reached (hashes)
 	Sample      any            `json:"sample,omitempty"`
 	Panic       string         `json:"panic,omitempty"`
